@@ -142,6 +142,11 @@ impl MinidumpWriter {
     /// Generates a minidump and writes to the destination provided. Returns the in-memory
     /// version of the minidump as well.
     pub fn dump(&mut self, destination: &mut (impl Write + Seek)) -> Result<Vec<u8>> {
+        // State that is recorded while writing a dump must not leak into the next one
+        // when the writer is reused.
+        self.memory_blocks.clear();
+        self.crashing_thread_context = CrashingThreadContext::None;
+
         let auxv = self
             .direct_auxv_dump_info
             .clone()
@@ -168,9 +173,11 @@ impl MinidumpWriter {
         dumper.late_init()?;
 
         if self.skip_stacks_if_mapping_unreferenced {
-            if let Some(address) = self.principal_mapping_address {
-                self.principal_mapping = dumper.find_mapping_no_bias(address).cloned();
-            }
+            // (Re)resolve the principal mapping for this dump, also when the address was
+            // cleared or no longer matches a mapping.
+            self.principal_mapping = self
+                .principal_mapping_address
+                .and_then(|address| dumper.find_mapping_no_bias(address).cloned());
 
             if !self.crash_thread_references_principal_mapping(&dumper) {
                 soft_errors.push(WriterError::PrincipalMappingNotReferenced);
